@@ -130,6 +130,7 @@ class Sim:
         self.blocked: dict[int, tuple] = {}
         self.finished: set[int] = set()
         self.issued_ops: list[_Op] = []
+        self.issue_count: dict = {}
         self.last = -1
         self.step_marks: list = []
 
@@ -292,16 +293,19 @@ class Sim:
             return None
         self.yield_point()
         fut = BaseFuture(owner=rank)
-        fut._label = (kind, pg.gid, desc.get('shape'))
+        k = self.issue_count.get((pg.gid, rank), 0)
+        self.issue_count[(pg.gid, rank)] = k + 1
+        cid = f'{pg.gid}:{k}'
+        fut._label = (kind, cid)
         op = _Op(kind, rank, desc, payload, fut, self.seq[rank])
-        self.log(rank, kind, pg, phase='issue', **desc)
+        self.log(rank, kind, pg, phase='issue', cid=cid, **desc)
         self.issued_ops.append(op)
         self.pending[pg.gid][rank].append(op)
         self._try_match(pg)
         if async_op:
             return Work(fut, fut._label)
+        self.log(rank, 'wait', pg, phase='wait', on=kind, cid=cid)
         if not fut.done():
-            self.log(rank, 'wait', pg, phase='wait', on=kind)
             self.block_until(lambda: fut.done(), (kind, pg.gid))
         fut.value()
         return None
@@ -459,9 +463,14 @@ def _sim_block_until(pred, why):
         if not pred():
             raise Deadlock(f'wait() on an incomplete future outside a simulation: {why}')
         return
-    rank = _TLS.rank
-    _SIM.log(rank, 'wait', None, phase='wait', on=str(why))
     _SIM.block_until(pred, why)
+
+
+def _sim_log_wait(label):
+    """a wait() that did not block is still a wait event of the trace"""
+    if _SIM is None or not isinstance(label, tuple) or len(label) < 2:
+        return
+    _SIM.log(_TLS.rank, 'wait', None, phase='wait', on=str(label[0]), cid=label[1])
 
 
 def current_sim() -> Sim | None:
